@@ -3,6 +3,7 @@
 package sim
 
 import (
+	"sync"
 	"context"
 	"fmt"
 	"os"
@@ -240,6 +241,37 @@ func sharedContainer() *kContainer {
 // hostile argument encodings for path/pointer arguments
 var hostilePtrs = []string{"n", "k", "o", "u:100", "u:4095", "u:4096", "u:4097", "u:5000", "u:12288", "x:/etc/passwd", "p:/etc/passwd", "l:4094:/tmp/", "l:4095:/tmp/", "l:4096:/tmp/", "l:8000:/", "s:relative/path", "s:/proc/self/fd/0", "s:", "18446744073709551615", "0x7fffffffffff"}
 
+// c15Ptrs: the hostile pointer encodings plus names in a forest of links that never resolve: a link to itself,
+// a cycle of two, chains longer than the kernel follows - with absolute and with relative targets, as the last
+// component and in the middle of the name. The kernel answers ELOOP; the tracer, which walks the same links
+// to name the object for the policy, must come back too.
+var c15LoopOnce sync.Once
+var c15LoopPtrs []string
+
+func c15Ptrs() []string {
+	c15LoopOnce.Do(func() {
+		d := filepath.Join(kDir, "c15loops")
+		os.MkdirAll(d, 0755)
+		os.Symlink(filepath.Join(d, "selfabs"), filepath.Join(d, "selfabs"))
+		os.Symlink("selfrel", filepath.Join(d, "selfrel"))
+		os.Symlink(filepath.Join(d, "pong"), filepath.Join(d, "ping"))
+		os.Symlink(filepath.Join(d, "ping"), filepath.Join(d, "pong"))
+		os.Symlink("rpong", filepath.Join(d, "rping"))
+		os.Symlink("rping", filepath.Join(d, "rpong"))
+		for i := 0; i < 60; i++ {
+			os.Symlink(filepath.Join(d, fmt.Sprintf("chain%d", i+1)), filepath.Join(d, fmt.Sprintf("chain%d", i)))
+			os.Symlink(fmt.Sprintf("rchain%d", i+1), filepath.Join(d, fmt.Sprintf("rchain%d", i)))
+		}
+		os.Mkdir(filepath.Join(d, "chain60"), 0755)
+		os.Mkdir(filepath.Join(d, "rchain60"), 0755)
+		c15LoopPtrs = append([]string(nil), hostilePtrs...)
+		for _, n := range []string{"selfabs", "selfrel", "ping", "rping", "chain0", "rchain0", "chain30"} {
+			c15LoopPtrs = append(c15LoopPtrs, "s:"+filepath.Join(d, n), "s:"+filepath.Join(d, n, "x"))
+		}
+	})
+	return c15LoopPtrs
+}
+
 var pathSyscalls = []struct {
 	name string
 	nr   int
@@ -287,7 +319,8 @@ func c15Run(c *vcore.Ctx) *vcore.Violation {
 		args := []string{"0", "0", "0", "0", "0", "0"}
 		enc := ""
 		for _, pi := range ps.ptr {
-			enc = hostilePtrs[src.Int(len(hostilePtrs), "ptr")]
+			ptrs := c15Ptrs()
+			enc = ptrs[src.Int(len(ptrs), "ptr")]
 			args[pi] = enc
 		}
 		if ps.dfd >= 0 {
